@@ -19,7 +19,9 @@
 #include <atomic>
 #include <sched.h>
 #include <time.h>
+#include <sys/wait.h>
 #include <thread>
+#include <unistd.h>
 
 namespace h
 {
@@ -36,6 +38,9 @@ struct Case
     int stall_ms = 0;    // > 0: every 40th write stalls that long inside the critical section
     int nest = 0;        // 1: every 5th statement has an operand that itself logs a complete record
     int first = 0;       // 1: the threads are released by a busy-wait barrier (first-ever use of the sink)
+    int main_logs = 0;   // 1: thread 0 is the main thread of the process, not a spawned one
+    int unwind = 0;      // 1: every 7th statement is issued from a destructor during stack unwinding
+    int forks = 0;       // > 0: one more thread forks that many times while the others log (not under TSan)
     template <class A>
     void io(A& a)
     {
@@ -50,6 +55,9 @@ struct Case
         a("stall_ms", stall_ms);
         a("nest", nest);
         a("first", first);
+        a("main_logs", main_logs);
+        a("unwind", unwind);
+        a("forks", forks);
     }
 };
 
@@ -65,7 +73,9 @@ std::string describe(const Case& c)
       << " records, lengths 1.." << c.max_len << " (seed " << c.len_seed << "), " << c.yields
       << " yields inside the critical section, start skew " << c.start_skew
       << (c.newlines ? ", multi-line records" : "") << (c.stall_ms ? ", stalls of " + std::to_string(c.stall_ms) + " ms" : "")
-      << (c.nest ? ", every 5th statement has an operand that logs" : "") << (c.first ? ", busy-wait start barrier" : "");
+      << (c.nest ? ", every 5th statement has an operand that logs" : "") << (c.first ? ", busy-wait start barrier" : "")
+      << (c.main_logs ? ", thread 0 is the main thread" : "") << (c.unwind ? ", every 7th statement during stack unwinding" : "")
+      << (c.forks ? ", another thread forks " + std::to_string(c.forks) + " times meanwhile" : "");
     return o.str();
 }
 
@@ -81,6 +91,7 @@ Case generate(vf::Src& src, const std::string& mode)
         c.len_seed = src.irange(1, 1000000);
         c.max_len = 100;
         c.first = 1;
+        c.main_logs = src.coin(60) ? 1 : 0;
         return c;
     }
     c.threads = src.irange(2, 8);
@@ -91,6 +102,9 @@ Case generate(vf::Src& src, const std::string& mode)
     c.start_skew = src.irange(0, 50);
     c.newlines = src.coin(35) ? 1 : 0;
     c.nest = src.coin(30) ? 1 : 0;
+    c.main_logs = src.coin(30) ? 1 : 0;
+    c.unwind = src.coin(25) ? 1 : 0;
+    c.forks = src.coin(15) ? src.irange(2, 6) : 0;
     // a stream that stalls now and then (a blocked pipe, a slow terminal): waiters queue up for long
     if (src.coin(12))
     {
@@ -204,6 +218,8 @@ static int length_of(const Case& c, int tid, int seq)
 
 std::string check(const Case& c0, vf::Ctx& ctx)
 {
+    // a deadlock shows as no progress at all: blocked threads use no CPU time
+    vf::arm_wall_watchdog(75);
     Case c = c0;
     c.threads = std::max(2, std::min(c.threads, 8));
     c.per_thread = std::max(1, std::min(c.per_thread, 300));
@@ -216,8 +232,7 @@ std::string check(const Case& c0, vf::Ctx& ctx)
     attempting = 0;
     std::atomic<int> go{ 0 }, ready{ 0 }, inner_total{ 0 };
     std::vector<std::thread> th;
-    for (int t = 0; t < c.threads; ++t)
-        th.emplace_back([&, t] {
+    auto worker = [&](int t) {
             ready.fetch_add(1);
             if (c.first)
                 while (!go.load(std::memory_order_acquire))
@@ -271,6 +286,31 @@ std::string check(const Case& c0, vf::Ctx& ctx)
                             LogOut::info() << "[t" << t << "#" << s << "|" << len << inner_record() << "|" << body << "]";
                     }
                 }
+                else if (c.unwind && s % 7 == 4)
+                {
+                    // the statement is issued by a scope guard while an exception leaves the scope
+                    struct Guard
+                    {
+                        const Case& c;
+                        int t, s, len;
+                        const std::string& body;
+                        ~Guard()
+                        {
+                            if (c.sink)
+                                LogErr::info() << "[t" << t << "#" << s << "|" << len << "|" << body << "]";
+                            else
+                                LogOut::info() << "[t" << t << "#" << s << "|" << len << "|" << body << "]";
+                        }
+                    };
+                    try
+                    {
+                        Guard g{ c, t, s, len, body };
+                        throw 1;
+                    }
+                    catch (int)
+                    {
+                    }
+                }
                 else if (c.sink)
                     LogErr::info() << "[t" << t << "#" << s << "|" << len << "|" << body << "]";
                 else
@@ -278,11 +318,38 @@ std::string check(const Case& c0, vf::Ctx& ctx)
                 attempting.fetch_sub(1, std::memory_order_acq_rel);
             }
             inner_total.fetch_add(inner_seq);
+        };
+    std::atomic<int> logging_done{ 0 };
+    for (int t = c.main_logs ? 1 : 0; t < c.threads; ++t)
+        th.emplace_back([&, t] { worker(t); });
+#if !defined(__SANITIZE_THREAD__)
+    if (c.forks > 0)
+        th.emplace_back([&] {
+            // a thread that starts child processes while the others are logging
+            while (!go.load())
+                sched_yield();
+            for (int k = 0; k < c.forks && !logging_done.load(); ++k)
+            {
+                for (int i = 0; i < 200; ++i)
+                    sched_yield();
+                pid_t pid = ::fork();
+                if (pid == 0)
+                    ::_exit(0);
+                if (pid > 0)
+                {
+                    int st = 0;
+                    ::waitpid(pid, &st, 0);
+                }
+            }
         });
+#endif
     if (c.first)
-        while (ready.load() < c.threads)
+        while (ready.load() < c.threads - (c.main_logs ? 1 : 0))
             sched_yield();
     go.store(1, std::memory_order_release);
+    if (c.main_logs)
+        worker(0);
+    logging_done = 1;
     for (auto& t : th)
         t.join();
     target.rdbuf(old);
@@ -300,6 +367,12 @@ std::string check(const Case& c0, vf::Ctx& ctx)
         ctx.tag("statements:operand-logs-itself");
     if (c.first)
         ctx.tag("start:busy-wait-barrier");
+    if (c.main_logs)
+        ctx.tag("threads:main-thread-logs");
+    if (c.unwind)
+        ctx.tag("statements:during-stack-unwinding");
+    if (c.forks)
+        ctx.tag("process:forks-while-logging");
     if (contended > 0)
         ctx.mark_nontrivial();
 
